@@ -76,9 +76,12 @@ def _run_one(args):
     ctx = Context(prop, name, mode='refute' if sizes else 'proof', sizes=sizes or {})
     progs = []
 
+    interps = []
+
     def thunk(c):
         it = Interp(c, Program())
         progs.append(it.prog)
+        interps.append(it)
         try:
             spec['fn'](c, it)
         except PyExc as e:
@@ -100,6 +103,12 @@ def _run_one(args):
     out['notes'] = ctx.notes[:20]
     for p in progs[-1:]:
         out['executed'] = p.executed
+    if interps:
+        # mechanical scan: callee contracts the harness relied on (functions replaced by a summary instead of being executed) and library watches
+        base = set(Interp(Context(prop, name), Program()).summaries)
+        out['assumed_callee_contracts'] = sorted(set().union(*[set(i_.summaries) for i_ in interps]) - base)
+        out['ghost_reads_of_locals'] = sorted({f'{q}:{v}' for i_ in interps for q, d in i_.watches.items() for v in d})
+    out['assume_calls'] = getattr(ctx, 'n_assume', 0)
     # vacuity: hypotheses of at least one path must be satisfiable
     vac_checked = False
     merged = {}
